@@ -357,6 +357,7 @@ def run_check(prop, tier, seed):
             if not hok:
                 problems.append(("harness-build", "harness", hlog[-3000:]))
     meta, mism, violations = None, [], []
+    _known0 = {k["cls"] for k in known_findings(prop)}
     outdir = os.path.join(BUILD, "run", prop)
     if cfg.get("harness", True) and hok:
         budget = cfg.get("timeout_quick", 600) if tier == "quick" else cfg.get("timeout_thorough", 5400)
@@ -376,7 +377,8 @@ def run_check(prop, tier, seed):
                                      % (prop, len(mism), meta.get("model_cases", 0)), json.dumps(first)[:3000], first))
     # ---- the disagreeing cases themselves are the first candidates for a failing input: replay each on the
     #      implementation with the property's own oracles (law checks, panic/hang detection)
-    if mism and meta is not None and not violations and hok:
+    _known0 = {k["cls"] for k in known_findings(prop)}
+    if mism and meta is not None and hok and not [v for v in violations if v.get("class") not in _known0]:
         descs = meta.get("case_descs", [])
         for i in mism[:12]:
             if i >= len(descs):
@@ -388,10 +390,10 @@ def run_check(prop, tier, seed):
                                        detail=out[-600:], replay=descs[i]))
                 break
     # ---- search when an obligation broke and no oracle violation is at hand
-    if problems and not violations and cfg.get("harness", True) and hok and tier == "quick":
+    if problems and not [v for v in violations if v.get("class") not in _known0] and cfg.get("harness", True) and hok and tier == "quick":
         rc, hout, meta2 = run_harness(prop, "thorough", seed + 7919, outdir + "-search", cfg.get("timeout_search", 900))
         if meta2 is not None:
-            violations = meta2.get("violations", [])
+            violations = violations + meta2.get("violations", [])
             notes.append("search run: %d evaluations, %d oracle violations" % (meta2.get("evaluations", 0), len(violations)))
     # ---- verdict
     known = known_findings(prop)
